@@ -2421,7 +2421,7 @@ impl SctpInner {
         }
 
         let old_cumulative_tsn = self.cumulative_tsn_ack.load(Ordering::SeqCst);
-        if new_cumulative_tsn > old_cumulative_tsn {
+        if tsn_gt(new_cumulative_tsn, old_cumulative_tsn) {
             debug!(
                 "FORWARD TSN: moving cumulative ack from {} to {}",
                 old_cumulative_tsn, new_cumulative_tsn
@@ -2429,9 +2429,31 @@ impl SctpInner {
             self.cumulative_tsn_ack
                 .store(new_cumulative_tsn, Ordering::SeqCst);
 
+            // Chunks at or below the new ack point belong to abandoned messages.
+            // What was buffered right behind the hole is in order now and must be
+            // delivered here: no further DATA may ever arrive to trigger the drain.
+            let mut now_in_order = Vec::new();
             {
                 let mut received_queue = self.received_queue.lock();
-                received_queue.retain(|&tsn, _| tsn > new_cumulative_tsn);
+                let skipped: Vec<u32> = received_queue
+                    .keys()
+                    .copied()
+                    .filter(|&tsn| !tsn_gt(tsn, new_cumulative_tsn))
+                    .collect();
+                for tsn in skipped {
+                    if let Some((_, chunk)) = received_queue.remove(&tsn) {
+                        self.used_rwnd.fetch_sub(chunk.len(), Ordering::Relaxed);
+                    }
+                }
+                loop {
+                    let next_tsn =
+                        new_cumulative_tsn.wrapping_add(1 + now_in_order.len() as u32);
+                    if let Some(entry) = received_queue.remove(&next_tsn) {
+                        now_in_order.push(entry);
+                    } else {
+                        break;
+                    }
+                }
             }
 
             // Advance SSNs for ordered streams
@@ -2459,8 +2481,24 @@ impl SctpInner {
                 }
             }
 
-            self.timer_notify.notify_one();
+            for (p_flags, p_chunk) in now_in_order {
+                let chunk_len = p_chunk.len();
+                let next_tsn = self
+                    .cumulative_tsn_ack
+                    .load(Ordering::Relaxed)
+                    .wrapping_add(1);
+                self.process_data_payload(p_flags, p_chunk).await?;
+                self.cumulative_tsn_ack.store(next_tsn, Ordering::Relaxed);
+                self.used_rwnd.fetch_sub(chunk_len, Ordering::Relaxed);
+            }
+
         }
+
+        // RFC 3758 3.6: every FORWARD-TSN is answered with a SACK - also one that
+        // moves nothing, otherwise a sender whose earlier SACK was lost keeps
+        // repeating it and never learns where the receiver stands.
+        self.schedule_sack_immediate();
+        self.timer_notify.notify_one();
 
         Ok(())
     }
